@@ -84,7 +84,13 @@ func c05Check(c *C05Case) Verdict {
 	if p != "" {
 		return bad("C05:panic", "run panicked: %s", p)
 	}
+	deadlineFlavor := c.Flavor == "deadline" || c.Flavor == "deadline-cause"
 	if ctxErr == nil {
+		if deadlineFlavor && point >= 0 {
+			// the deadline was aimed at callback `point` of the reference run; this run's timeline
+			// differed (waits need not be reproducible) and it was over before the deadline
+			return ok(false, "flavor:"+c.Flavor, "deadline-after-run")
+		}
 		// cannot happen for point within the run; treat as harness inconsistency
 		return inconclusive("context not done after injection at %d (%s)", point, c.Flavor)
 	}
@@ -118,13 +124,28 @@ func c05Check(c *C05Case) Verdict {
 			return bad("C05:diverged", "cancelled run diverges from the reference: %v vs %v", traceStrings(tr), traceStrings(ref))
 		}
 	}
-	if len(tr) <= point || tr[point].Phase != ref[point].Phase || tr[point].Leaf != ref[point].Leaf {
-		return inconclusive("injection point %d not reached: %v", point, traceStrings(tr))
+	// The cancellation instant on THIS run's timeline: cancel() is called by callback `point`
+	// itself, half a second after it started; a deadline is an absolute instant (proposed by the
+	// reference run - which callback it hits here is read off this run's own stamps).
+	if !deadlineFlavor {
+		if len(tr) <= point || tr[point].Phase != ref[point].Phase || tr[point].Leaf != ref[point].Leaf {
+			return inconclusive("injection point %d not reached: %v", point, traceStrings(tr))
+		}
+		at = tr[point].T0 + 500*time.Millisecond
+	}
+	point = -1
+	for i, e := range tr {
+		if e.T0 <= at {
+			point = i
+		}
+	}
+	if point < 0 {
+		return inconclusive("no callback had started when the context was cancelled at %v: %v", at, traceStrings(tr))
 	}
 	// (2) after the cancellation instant: no exec attempt starts, no further node (prep) starts
 	for _, e := range tr[point+1:] {
 		if e.Phase == "exec" || e.Phase == "prep" {
-			return bad("C05:started-after-cancel:"+e.Phase, "context was cancelled inside %s, yet %s was started afterwards: %v", tr[point], e, traceStrings(tr))
+			return bad("C05:started-after-cancel:"+e.Phase, "context was cancelled at %v (during or after %s), yet %s was started afterwards: %v", at, tr[point], e, traceStrings(tr))
 		}
 	}
 	cut := len(pa) < len(pr) || len(tr) < len(ref)
